@@ -1,6 +1,6 @@
 (* frg::small_vector: closed forms under the representation invariant and refinement to lists (C13). *)
 From Coq Require Import List NArith Arith Bool Lia.
-From FV Require Import Common.EventLog Seq.SlotModel Seq.SlotProofs Seq.VectorModel Seq.VectorProofs Seq.SmallVectorModel.
+From FV Require Import Common.EventLog Seq.SlotModel Seq.SlotProofs Seq.LogProofs Seq.VectorModel Seq.VectorProofs Seq.SmallVectorModel.
 Import ListNotations.
 
 Section WithParams.
@@ -195,11 +195,6 @@ Qed.
 
 
 (* ---- swap: the loops *)
-Definition swap_evs (an bn : nm) (i k : nat) : list ev :=
-  flat_map (fun j => [EUse (an j); EDestroy (an j); EUse (bn j); EConstruct (an j); EDestroy (bn j); EConstruct (bn j)]) (seq i k).
-Definition reloc_evs (sn dn : nm) (i k : nat) : list ev :=
-  flat_map (fun j => [EUse (sn j); EConstruct (dn j); EDestroy (sn j)]) (seq i k).
-
 Lemma swap_loop_gen : forall ea eb an bn pa qa pb qb,
   length ea = length eb -> length pa = length pb ->
   swap_loop (length ea) (length pa) an bn (pa ++ map Some ea ++ qa) (pb ++ map Some eb ++ qb) =
@@ -235,10 +230,6 @@ Lemma reloc_loop_at es sn dn ps qs pd qd i k : i = length ps -> k = length es ->
   reloc_loop k i sn dn (ps ++ map Some es ++ qs) (pd ++ repeat None k ++ qd) =
   Ok (ps ++ repeat None k ++ qs, pd ++ map Some es ++ qd, reloc_evs sn dn i k).
 Proof. intros -> -> H. now apply reloc_loop_gen. Qed.
-
-Definition inl_swap_evs (an bn : nm) (ca cb : nat) : list ev :=
-  swap_evs an bn 0 (Nat.min ca cb) ++ reloc_evs an bn (Nat.min ca cb) (ca - Nat.min ca cb)
-  ++ reloc_evs bn an (Nat.min ca cb) (cb - Nat.min ca cb).
 
 (* the three loops of swap() on two inline arrays holding la and lb exchange their contents *)
 Lemma inl_swap an bn (la lb : list V) n : length la <= n -> length lb <= n ->
